@@ -14,7 +14,7 @@ FAMILY = "diode"
 TREE = json.load(open(os.path.join(SPEC, "diode", "tree_state.json")))
 
 OWN_EVENTS = {
-    "C10": {"WRet", "DStart", "DEnd", "Alert", "EndBlocked", "WStart", "PBlocked"},
+    "C10": {"WRet", "DStart", "DEnd", "Alert", "EndBlocked", "WStart", "PBlocked", "GPanic"},
     "C11": {"CloseStart", "CloseRet"},
     "C12": {"Quiesce", "Stuck"},
 }
@@ -51,9 +51,9 @@ def overlay_files():
     ]
 
 
-def build_player(sc):
+def build_player(sc, goarch=None):
     inj = os.path.join(HARNESS, "inject")
-    out = sc.path("diodeplayer")
+    out = sc.path("diodeplayer" + (goarch or ""))
     notes = []
     for peek in (True, False):
         suffix = "" if peek else "_stub"
@@ -61,7 +61,7 @@ def build_player(sc):
                           [("diode/internal/diodes/zz_verif_peek.go", os.path.join(inj, "diodes_peek%s.go" % suffix)),
                            ("diode/zz_verif_peek.go", os.path.join(inj, "diode_peek%s.go" % suffix))])
         try:
-            go_build("./players/diode", out, overlay=ov)
+            go_build("./players/diode", out, overlay=ov, goarch=goarch)
             if not peek:
                 notes.append("state peek does not compile against the working tree: recordings carry no ring projection")
             return out, notes
@@ -319,7 +319,7 @@ def free_scripts(n, seed, quiesce):
     return out
 
 
-def play(player, sc, scripts, shards):
+def play(player, sc, scripts, shards, tag=""):
     """Run the player on the scripts, sharded; returns per script (obs_lines, impl_lines)."""
     chunks = [scripts[i::shards] for i in range(shards)]
 
@@ -327,7 +327,7 @@ def play(player, sc, scripts, shards):
         ch = chunks[ix]
         if not ch:
             return []
-        d = sc.sub("play%d" % ix)
+        d = sc.sub("play%s%d" % (tag, ix))
         with open(os.path.join(d, "scripts.ndjson"), "w") as f:
             for s in ch:
                 f.write(json.dumps(s) + "\n")
@@ -460,6 +460,20 @@ def check(pid, tier, seed, replay=None):
         log("%s: contract validated %.0fs" % (pid, time.time() - t0))
         conf = validate_impl(sc, recs)
         log("%s: impl validated %.0fs" % (pid, time.time() - t0))
+        # C10 also on a 32-bit build (GOARCH=386 binaries run on this kernel): the 64-bit atomics of the ring need 64-bit alignment
+        # there, which is a matter of struct layout - same player, same contract, a sample of the schedules
+        n386 = 0
+        if pid == "C10" and not replay:
+            p386, _ = build_player(sc, goarch="386")
+            sample = [s for s in scripts if s["id"].startswith(("free-", "sim", "cover-"))][:: max(1, len(scripts) // 150)]
+            recs386 = play(p386, sc, sample, shards=4, tag="x86-")
+            n386 = len(recs386)
+            for ri, k, e, sig in validate_contract(sc, recs386, shards=4):
+                s386, obs_lines, _ = recs386[ri]
+                if e["a"] in OWN_EVENTS[pid]:
+                    bads.append((len(recs) + ri, k, e, ""))
+            recs = recs + recs386
+            log("%s: 32-bit build: %d schedules %.0fs" % (pid, n386, time.time() - t0))
         known = known_signatures(pid)
         other = 0
         rejected_ids = []
